@@ -154,10 +154,10 @@ def jobs(tier):
     quick = tier == "quick"
     J = []
 
-    def A(mk, q=None, **kw):
-        """Exhaustive co-exploration; `q` bounds the number of product states in the quick tier (the thorough
-        tier explores the complete reachable product)."""
-        J.append(Job("A", mk, max_states=(q if quick and q else 3000000), **kw))
+    def A(mk, q=None, t=None, **kw):
+        """Exhaustive co-exploration; `q` / `t` bound the number of product states in the quick / thorough tier
+        (None: the complete reachable product is explored; bounded jobs report exhaustive=false)."""
+        J.append(Job("A", mk, max_states=((q if quick else t) or 3000000), **kw))
 
     def B(mk, **kw):
         J.append(Job("B", mk, cycles=kw.pop("cycles", 4000 if quick else 40000), runs=1 if quick else 4, **kw))
@@ -186,9 +186,9 @@ def jobs(tier):
                         slave_letters=[(0, 0, 0), (1, 0xD4C3B2A1, 0), (0, 0, 1)]))
     # --- converters over a real SRAM (real modules composed in one Migen module)
     A(lambda: conv_sram_inst("Down 16->8 / SRAM d4", 16, 8, 2, 4, adrs=range(2 if quick else 3), sels=range(4)))
-    A(lambda: conv_sram_inst("Down 32->8 / SRAM d4", 32, 8, 2, 4, adrs=range(2), sels=[0, 0xF, 1, 8, 6, 3]), q=900)
+    A(lambda: conv_sram_inst("Down 32->8 / SRAM d4", 32, 8, 2, 4, adrs=range(2), sels=[0, 0xF, 1, 8, 6, 3]), q=900, t=70000)
     if not quick:
-        A(lambda: conv_sram_inst("Down 32->8 / SRAM d8", 32, 8, 2, 8, adrs=range(3), sels=[0, 0xF, 1, 8, 6]))
+        A(lambda: conv_sram_inst("Down 32->8 / SRAM d8", 32, 8, 2, 8, adrs=range(3), sels=[0, 0xF, 1, 8, 6]), t=12000)
     A(lambda: conv_sram_inst("Up 8->16 / SRAM d2", 8, 16, 4, 2, adrs=range(5), sels=[0, 1]))
     A(lambda: conv_sram_inst("Up 8->32 / SRAM d2", 8, 32, 4, 2, adrs=range(5 if quick else 9), sels=[0, 1]))
     if not quick:
@@ -210,8 +210,8 @@ def jobs(tier):
                          slave_letters=[(0, 0, 0), (1, 0, 0), (1, 0xB2A1, 0)]), q=350)
     A(lambda: cache_inst("Cache 16->8 2 lines x 2 words (free slave)", 2, 16, 8, 2, 3, adrs=range(4), sels=[0, 3, 1],
                          slave_letters=[(0, 0, 0), (1, 0, 0), (1, 0xA1, 0)]), q=450)
-    A(lambda: cache_inst("Cache 8->16 / SRAM d4", 4, 8, 16, 3, 2, depth=4, adrs=range(8), sels=[1]), q=2000)
-    A(lambda: cache_inst("Cache 16->8 / SRAM d8", 2, 16, 8, 2, 3, depth=8, adrs=range(4), sels=[3, 1]), q=2000)
+    A(lambda: cache_inst("Cache 8->16 / SRAM d4", 4, 8, 16, 3, 2, depth=4, adrs=range(8), sels=[1]), q=2000, t=30000)
+    A(lambda: cache_inst("Cache 16->8 / SRAM d8", 2, 16, 8, 2, 3, depth=8, adrs=range(4), sels=[3, 1]), q=2000, t=30000)
     # --- realistic sizes, random lock-step co-simulation with the monitors armed
     B(lambda: sram_inst("SRAM 4KiB dw32", 32, 1024, 30, mode="B", init=words_init(64, 4, lambda i: i * 0x01010101 + 7)))
     B(lambda: sram_inst("SRAM 1KiB dw64 burst", 64, 128, 29, burst=True, mode="B",
